@@ -4,13 +4,13 @@ use cgmath::prelude::*;
 use cgmath::{Basis3, Deg, Euler, Matrix3, Matrix4, Quaternion, Rad};
 use num_traits::Float;
 
-use crate::clause;
-use crate::conv::*;
-use crate::fw::{Case, Clause};
-use crate::gen::{self, Rng, Tier};
-use crate::iv::Tri;
-use crate::model::*;
-use crate::sc::{Ck, Sc};
+use cgv_core::clause;
+use cgv_core::conv::*;
+use cgv_core::fw::{Case, Clause};
+use cgv_core::gen::{self, Rng, Tier};
+use cgv_core::iv::Tri;
+use cgv_core::model::*;
+use cgv_core::sc::{Ck, Sc};
 
 // ---------------------------------------------------------------- a. building from Euler angles
 
@@ -101,7 +101,7 @@ fn g_extract(rng: &mut Rng, tier: Tier) -> Case {
             let p = p.max(1);
             let den = k * k + p * p;
             let sgn = if rng.bool() { 1 } else { -1 };
-            let hy = [crate::sc::Rat::new(k * k - p * p, den), crate::sc::Rat::new(sgn * 2 * k * p, den)];
+            let hy = [cgv_core::sc::Rat::new(k * k - p * p, den), cgv_core::sc::Rat::new(sgn * 2 * k * p, den)];
             c.push_r(&hx).push_r(&hy).push_r(&hz);
             c.nontrivial = true;
         }
